@@ -370,3 +370,28 @@ def make_merge(tname, cls):
 
 for _name, _cls in ledger_tables():
     make_merge(_name, _cls)
+
+
+@cond('C02.query.wide', quick=180,
+      bounds='2 rows (k in {0,1}, w bool, v symbolic int or NULL); a wide aggregate query with 10 targets whose grouping '
+             'columns sit at target positions 2 and 9 (k int, w bool) among 8 aggregates; also the announced datatypes',
+      symbolic='v cells, w cells', enumerated='k cells',
+      params={'k0': int, 'k1': int, 'w0': bool, 'w1': bool, 'v0': Optional[int], 'v1': Optional[int]})
+def query_wide(k0, k1, w0, w1, v0, v1):
+    kd = sym.VEnumInt(0, 1, nullable=False)
+    rows = [(kd.build('k', {'k': k0}), True if w0 else False, v0), (kd.build('k', {'k': k1}), True if w1 else False, v1)]
+    columns = [('k', int), ('w', bool), ('v', int)]
+    aggs = ['count', 'sum', 'min', 'max', 'first', 'last']
+    targets = [target(func('count', ast.Asterisk()), 'n'), target(col('k'))]
+    targets += [target(func(a, col('v')), a + '_v') for a in aggs]
+    targets += [target(col('w')), target(func('count', col('k')), 'ck')]
+    stmt = sel(targets, 't', group_by=ast.GroupBy([col('k'), col('w')], None))
+    cur, got, want = _run_both(stmt, rows, columns)
+    if not same_rows(got, want.rows):
+        return 'wide-group-keys'
+    for row in got:
+        if not isinstance(row[1], int) or isinstance(row[1], bool) or not isinstance(row[8], bool):
+            return 'group-key-in-wrong-column'
+    if cur.description[1].datatype is not int or cur.description[8].datatype is not bool:
+        return 'announced-datatypes'
+    return 'ok'
